@@ -64,6 +64,34 @@ def run(ctx, idx):
                "the raw value goes to clean() / an isinstance test" if ok_use else
                "`%s` uses the raw value of an argument before it was cleaned (`%s`): a value of the wrong kind - a number where a list of results is declared, a list where one name is - raises TypeError here, in Program.run's own code, outside Command.run's wrapper" % (K.src(up)[:70] if up is not None else K.src(x_), K.src(x_)))
     ctx.floor("C13.g", "uses of raw argument values in Program.run", n_raw, 1)
+    # a line number is optional: commands and arguments added through the API have `lineno=None`.  Ordering by it - sorted / sort /
+    # min / max with a key that reads `.lineno`, or `<`-style comparisons of it - raises a raw TypeError on Python 3 as soon as one
+    # such command is among the values, in Program's own code, outside every wrapper.
+    ctx.rule("C13.h", "Line numbers are optional (None for commands and arguments added through the API): program / command / parameter code never orders by `.lineno` - no sorted / sort / min / max whose key reads it, no `<`, `<=`, `>`, `>=` on it - because None does not order against None or an int (TypeError outside Command.run's wrapper).")
+    n_lines = 0
+    found_h = []
+    for mod_, fi_, n_ in K.scoped_nodes(idx):
+        if mod_.name not in ("mpilot.program", "mpilot.commands", "mpilot.params", "mpilot.utils", "mpilot.arguments"):
+            continue
+        if isinstance(n_, ast.Attribute) and n_.attr == "lineno" and isinstance(n_.ctx, ast.Load):
+            n_lines += 1
+        key_ = None
+        if isinstance(n_, ast.Call) and ((isinstance(n_.func, ast.Name) and n_.func.id in ("sorted", "min", "max")) or (isinstance(n_.func, ast.Attribute) and n_.func.attr == "sort")):
+            key_ = next((k_.value for k_ in n_.keywords if k_.arg == "key"), None)
+        if key_ is not None:
+            reads = any(isinstance(x_, ast.Attribute) and x_.attr == "lineno" for x_ in ast.walk(key_)) or \
+                (isinstance(key_, ast.Call) and K.src(key_.func).endswith("attrgetter") and any(isinstance(a_, ast.Constant) and a_.value == "lineno" for a_ in key_.args))
+            guarded = any(isinstance(x_, (ast.IfExp, ast.BoolOp)) for x_ in ast.walk(key_))  # `c.lineno or 0`, `... if c.lineno is not None else ...`: a total key
+            if reads and not guarded:
+                found_h.append((mod_, fi_, n_, "`%s` orders by `.lineno`" % K.src(n_)[:70]))
+        if isinstance(n_, ast.Compare) and any(isinstance(o_, (ast.Lt, ast.LtE, ast.Gt, ast.GtE)) for o_ in n_.ops) and any(isinstance(x_, ast.Attribute) and x_.attr == "lineno" for x_ in [n_.left] + list(n_.comparators)):
+            found_h.append((mod_, fi_, n_, "`%s` compares `.lineno` for order" % K.src(n_)[:70]))
+    if found_h:
+        for mod_, fi_, n_, what_ in found_h[:3]:
+            ctx.violate("C13.h", "%s::orders-by-optional-line" % K.where(mod_, fi_), mod_.rel, n_.lineno, "%s: a command or argument added through the API has no line number (None), and Python 3 cannot order None against None or an int - a raw TypeError escapes from %s for a valid model" % (what_, fi_.qualname if fi_ is not None else "module code"))
+    else:
+        ctx.hold("C13.h", "mpilot::optional-line-numbers-are-not-ordered", "mpilot/program.py", 1, "no sort key or order comparison reads `.lineno` (%d reads of it examined)" % n_lines, nontrivial=False)
+    ctx.floor("C13.h", "reads of .lineno in program / command / parameter code", n_lines, 10)
     ctx.assume("operation table of Engine D (see C20); third-party code raises nothing on well-typed arguments; six.raise_from and sys.exit do not return")
     ctx.rule("C13.a", "Cleaners are total: for every Parameter.clean and every raw kind the escape set ⊆ subclasses of MPilotError.")
     ctx.rule("C13.b", "Run boundary: Command.run's try covers validate_params and execute, catches Exception, re-raises MPilotError unchanged and raises UnexpectedError (a ProgramError) from everything else; inside any handler an attribute read on the caught error exists for every class the handler admits; every explicit raise reachable from from_source / Program.run outside that handler is SyntaxError or an MPilotError subclass.")
@@ -533,7 +561,7 @@ TEXT_PAYLOADS = {
 }
 
 
-def str_methods_total(ctx, idx, rule):
+def str_methods_total(ctx, idx, rule, only=None, floor=True):
     """__str__ of every MPilot error formats without raising: placeholder counts match, no star-args of unknown length"""
     import string
 
@@ -542,6 +570,8 @@ def str_methods_total(ctx, idx, rule):
     for ci in excs:
         m = ci.methods.get("__str__")
         if m is None:
+            continue
+        if only is not None and ci.name not in only:
             continue
         n += 1
         probs = []
@@ -609,6 +639,14 @@ def str_methods_total(ctx, idx, rule):
                     need = len([f for f in auto if f == ""]) or (max([int(f) for f in auto if f.isdigit()] + [-1]) + 1)
                     if need > len(c.args):
                         probs.append((c.lineno, "format string has %d positional placeholder(s) but %d argument(s)" % (need, len(c.args))))
+                import re as _re
+
+                named = sorted({_re.split(r"[.\[]", f, 1)[0] for f in fields if f and not f[0].isdigit()})
+                given = {k_.arg for k_ in c.keywords if k_.arg}
+                if named and not any(k_.arg is None for k_ in c.keywords):
+                    lacking = [f for f in named if f not in given]
+                    if lacking:
+                        probs.append((c.lineno, "the format string names `{%s}` but .format() is given %s: KeyError while the message is printed" % (lacking[0], ("only " + ", ".join(sorted(given))) if given else "no keyword")))
             if isinstance(c, ast.Call) and isinstance(c.func, ast.Attribute) and c.func.attr == "join" and isinstance(c.func.value, ast.Constant) and c.args:
                 arg = K.expand(m, c.args[0])
                 elems = arg.elts if isinstance(arg, (ast.Tuple, ast.List)) else None
@@ -627,7 +665,9 @@ def str_methods_total(ctx, idx, rule):
             ctx.violate(rule, con, ci.module.rel, probs[0][0], "%s.__str__ can raise instead of producing the message: %s" % (ci.name, probs[0][1]))
         else:
             ctx.hold(rule, con, ci.module.rel, m.node.lineno, "placeholders and arguments agree", nontrivial=False)
-    ctx.floor(rule, "__str__ methods of MPilot errors", n, 20)
+    if floor:
+        ctx.floor(rule, "__str__ methods of MPilot errors", n, 20)
+    return n
 
 
 # ---------------------------------------------------------------------------------------------- grammar action types
